@@ -9,9 +9,9 @@ import tempfile
 from lib import tlc
 from lib.evidence import Report
 
-KINDS = ['sdc', 'mssdc', 'errest', 'logs', 'etol', 'getdef', 'mlsdc', 'pfasst', 'adapt', 'adaptres', 'rand1', 'rand2']
+KINDS = ['sdc', 'dtinit', 'hookadd', 'mssdc', 'errest', 'logs', 'etol', 'getdef', 'mlsdc', 'pfasst', 'adapt', 'adaptres', 'rand1', 'rand2']
 ONESHOT = ['adapt', 'adaptres', 'rand1', 'rand2']  # step-size control: reproducible on a fresh controller (the property does not promise more)
-FAM = {'sdc': 'test', 'mssdc': 'test', 'errest': 'test', 'logs': 'test', 'etol': 'test', 'getdef': 'test', 'mlsdc': 'heat', 'pfasst': 'heat',
+FAM = {'sdc': 'test', 'dtinit': 'test', 'hookadd': 'test', 'mssdc': 'test', 'errest': 'test', 'logs': 'test', 'etol': 'test', 'getdef': 'test', 'mlsdc': 'heat', 'pfasst': 'heat',
        'adapt': 'vdp', 'adaptres': 'vdp', 'rand1': 'test', 'rand2': 'test'}
 
 
